@@ -26,7 +26,10 @@ RULE = ('a case = a generated host program (1-3 modules + optionally a second di
         '(arbitrary allow/deny per hit); every 8th case is a lifecycle case: real TriggerHandler.start() / new_config / '
         'shutdown(), threads started while the installed list is empty and run after tracepoints are configured; '
         'every 8th case is a gated case: handler.new_config(new list) lands while thread T0 is parked inside the '
-        'matching of its first event of a file (a LineLocation subclass whose path property is a gate). '
+        'matching of its first event of a file (a LineLocation subclass whose path property is a gate); a quarter are '
+        'registration histories on the real TracepointConfigService (add_custom of valid and of rejected tracepoints, '
+        'remove_custom), judged per tracepoint id; ~40% of the modules are long files (code from line 301 / 1001 / '
+        '70001 on) and functions contain loops written on one line. '
         'Non-trivial = at least one effect produced and at least one tracepoint '
         'never reached. Distinct = distinct canonical JSON.')
 TRUSTED = ['CPython 3.12 trace-event discipline (checked against the recorded reference stream on every run: the '
@@ -229,6 +232,41 @@ def gen_gated(rng, tier):
             'gated': {'file': 'm0.py', 'old': sorted(old), 'new': sorted(new)}}
 
 
+def gen_history(rng, tier):
+    """in-code registration history on the real TracepointConfigService: valid registrations interleaved with
+    registrations that cannot be interpreted (rejected), then some are unregistered; afterwards events on every
+    location: exactly the tracepoints still registered act."""
+    prog = th.gen_program(rng, nmods=rng.randint(1, 2), nfuncs=rng.randint(3, 4))
+    mods = [m for m in prog['meta']['mods'] if m != 'm0x']
+    entries = [[rng.choice(mods), 'f0', rng.randint(0, 3)]]
+    tps = [tp for tp in gen_tps(rng, prog, entries) if not tp.get('unmatchable')]
+    ex_lines, _ = th.executed(prog['files'], entries)
+    while len(tps) < 3 and ex_lines:
+        f, l = rng.choice(ex_lines)
+        tps.append(mk_tp(rng, len(tps), os.path.basename(f), l, rng.choice(['log', 'snapshot']), 'custom'))
+    for i, tp in enumerate(tps):
+        tp['id'] = 'tp%d' % i
+        tp['via'] = 'custom'
+        if tp.get('scripted'):
+            tp['args']['condition'] = "_dec('%s')" % tp['id']
+    order = [tp['id'] for tp in tps]
+    rng.shuffle(order)
+    hist = [['add', i] for i in order]
+    for _ in range(rng.randint(1, 2)):           # rejected registrations, most of them early
+        pos = 0 if rng.random() < 0.6 else rng.randrange(len(hist) + 1)
+        hist.insert(pos, ['add_invalid', rng.choice(mods) + '.py', rng.randint(1, 400)])
+    removed = rng.sample(order, rng.randint(1, max(1, len(order) // 2)))
+    for i in removed:
+        hist.append(['remove', i])
+    if rng.random() < 0.3:
+        hist.append(['remove_invalid'])
+    if rng.random() < 0.3 and removed:
+        hist.append(['add', removed[0]])
+    scripts = {'T0': {tp['id']: [rng.random() < 0.6 for _ in range(rng.randint(0, 6))] for tp in tps if tp.get('scripted')}}
+    return {'kind': 'prog', 'mode': 'sys', 'files': prog['files'], 'entries': entries, 'tps': tps, 'scripts': scripts,
+            'sched': [], 'model_seed': rng.randrange(10 ** 6), 'history': hist}
+
+
 def gen(rng, tier):
     k = 0
     while True:
@@ -237,6 +275,8 @@ def gen(rng, tier):
             yield gen_lifecycle(rng, tier)
         elif k % 8 == 4:
             yield gen_gated(rng, tier)
+        elif k % 8 in (2, 6):
+            yield gen_history(rng, tier)
         else:
             yield gen_case(rng, tier)
 
@@ -326,6 +366,23 @@ def corpus():
                   'metrics': [], 'via': 'resp'},
                  {'id': 'tp1', 'path': 'm0.py', 'line': 9, 'args': dict(u, snapshot='no_collect', log_msg='new'),
                   'metrics': [], 'via': 'resp'}]},
+        # registration history: a rejected registration first, three valid ones, the middle one is unregistered
+        {'kind': 'prog', 'mode': 'sys', 'files': {'m0.py': src}, 'entries': [['m0', 'g', 1]], 'scripts': {},
+         'sched': [], 'model_seed': 11,
+         'history': [['add_invalid', 'm0.py', 2], ['add', 'tp0'], ['add', 'tp1'], ['add', 'tp2'], ['remove', 'tp1']],
+         'tps': [{'id': 'tp0', 'path': 'm0.py', 'line': 2, 'args': dict(u, snapshot='no_collect', log_msg='a'),
+                  'metrics': [], 'via': 'custom'},
+                 {'id': 'tp1', 'path': 'm0.py', 'line': 8, 'args': dict(u, snapshot='no_collect', log_msg='b'),
+                  'metrics': [], 'via': 'custom'},
+                 {'id': 'tp2', 'path': 'm0.py', 'line': 9, 'args': u, 'metrics': [], 'via': 'custom'}]},
+        # a long file: the same program starting at line 301 / 70001 (line numbers beyond CPython's shared ints)
+        {'kind': 'prog', 'mode': 'sys', 'files': {'m0.py': '\n' * 300 + src, 'm1.py': '\n' * 70000 + src},
+         'entries': [['m0', 'g', 1], ['m1', 'g', 1]], 'scripts': {}, 'sched': [], 'model_seed': 12,
+         'tps': [{'id': 'tp0', 'path': 'm0.py', 'line': 302, 'args': u, 'metrics': [], 'via': 'resp'},
+                 {'id': 'tp1', 'path': 'm0.py', 'line': 256, 'args': u, 'metrics': [], 'via': 'resp'},
+                 {'id': 'tp2', 'path': 'm1.py', 'line': 70008, 'args': dict(u, snapshot='no_collect', log_msg='far'),
+                  'metrics': [], 'via': 'custom'},
+                 {'id': 'tp3', 'path': 'm0.py', 'line': 2, 'args': u, 'metrics': [], 'via': 'resp'}]},
         # no tracepoint at all; and only never-reached ones
         {'kind': 'prog', 'mode': 'sys', 'files': {'m0.py': src}, 'entries': [['m0', 'g', 1]], 'scripts': {},
          'sched': [], 'model_seed': 2, 'tps': []},
@@ -400,7 +457,8 @@ def oracle(case, obs):
     for t in threads_of(case):
         events = host_events(obs, t)
         observed = [o for o in obs['effects'].get(t, []) if o['kind'] in FIRED]
-        tps = th.lifecycle_tps(case, t) if case.get('lifecycle') else case['tps']
+        tps = th.lifecycle_tps(case, t) if case.get('lifecycle') else \
+            th.history_active(case) if case.get('history') else case['tps']
         if case.get('gated'):
             vv, paired = gated_align(case, obs, t, events, observed,
                                      lambda tps_, lo, hi: [g for g in th.reference(tps_, events, {})[0]
@@ -432,6 +490,8 @@ def model_request(case, obs):
         return None
     if case.get('lifecycle'):
         return th.lifecycle_requests(case, obs)
+    if case.get('history'):
+        return th.run_request(case, obs, only={tp['id'] for tp in th.history_active(case)})
     if case.get('gated'):
         # the stream lift with the configuration replaced between two events: each thread's stream under the old and
         # under the new tracepoints (which actions run at an event does not depend on earlier events: c03_stream)
@@ -495,7 +555,7 @@ def compare(case, obs, resp):
         return d
     if not resp.get('global_agrees'):
         d.append('model: the interleaved machine disagrees with the per-thread runs')
-    if resp.get('triggers') != obs.get('triggers'):
+    if resp.get('triggers') != obs.get('triggers') and not case.get('history'):
         d.append('installed triggers: model %s vs implementation %s' % (resp.get('triggers'), obs.get('triggers')))
     for k, t in enumerate(threads_of(case)):
         events = host_events(obs, t)
@@ -510,7 +570,7 @@ def label(case, obs):
     if 'raised' in obs:
         return 'raised'
     n = sum(len([o for o in e if o['kind'] in FIRED]) for e in obs['effects'].values())
-    return '%s%s/%dthr/%s' % ('lifecycle' if case.get('lifecycle') else
+    return '%s%s/%dthr/%s' % ('lifecycle' if case.get('lifecycle') else 'history' if case.get('history') else
                               ('gated' + ('' if obs.get('gate') else '-unparked')) if case.get('gated') else case['mode'],
                               '/nosource' if case.get('nosource') else '', len(case['entries']),
                               'none' if n == 0 else 'few' if n < 6 else 'many')
@@ -536,8 +596,15 @@ def shrink(case):
     for i in range(len(tps)):
         c = dict(case)
         c['tps'] = tps[:i] + tps[i + 1:]
+        if case.get('history'):
+            c['history'] = [op for op in case['history'] if not (op[0] in ('add', 'remove') and op[1] == tps[i]['id'])]
         yield c
-    if len(case['entries']) > 1 and not case.get('lifecycle') and not case.get('gated'):
+    if case.get('history'):
+        for i, op in enumerate(case['history']):
+            c = dict(case)
+            c['history'] = case['history'][:i] + case['history'][i + 1:]
+            yield c
+    if len(case['entries']) > 1 and not case.get('lifecycle') and not case.get('gated') and not case.get('history'):
         for i in range(len(case['entries'])):
             c = dict(case)
             c['entries'] = case['entries'][:i] + case['entries'][i + 1:]
